@@ -61,6 +61,25 @@ static inline void range_vs_singles(C& c1, C& c2, int rmethod, const Ev* e, size
     REL_ALPHA(c2, a2);
     VF_P(18, 7, a_eq(a1, a2)); // exactly the effect of the singles (values, deadlines, counts, both orders)
     VF_P(18, 8, c1.size() == c2.size());
+    // the same, split by aspect (other properties' checks read the aspect that concerns them from this query):
+    {
+        bool keys = a1.n == a2.n, vals = true, dls = true, cnts = true, order = true;
+        for (size_t p = 0; p < AMAX; ++p)
+            if (p < a1.n)
+            {
+                size_t q = a_idx(a2, a1.k[p]);
+                if (q == NPOS) { keys = false; continue; }
+                if (a1.v[p] != a2.v[q]) vals = false;
+                if (a1.d[p] != a2.d[q]) dls = false;
+                if (a1.cnt[p] != a2.cnt[q] || a1.age[p] != a2.age[q]) cnts = false;
+                if (q != p) order = false;
+            }
+        VF_P(18, 9, keys);   // same resident keys (retention, C03)
+        VF_P(18, 10, vals);  // same values (C01)
+        VF_P(18, 11, dls);   // same deadlines (C04, C05)
+        VF_P(18, 12, order); // same policy order (C10, C12, C13)
+        VF_P(18, 13, cnts);  // same use counts and ages (C11, C14)
+    }
 #if T_PURGE
     // C17, range forms: ut_map / ut_set purge at the start of every range call too: an entry of the pre-state whose
     // deadline is <= now is gone afterwards, unless this very range insert re-wrote its key
